@@ -26,6 +26,9 @@ type c17Cfg struct {
 	WS    int  `json:"ws"`             // write-side stall: server stops reading after this many content bytes (0 = off)
 	CtxDL bool `json:"ctxdl"`          // caller passes a context with its own (longer) deadline
 	Msgs  int  `json:"msgs,omitempty"` // messages per send (default 1)
+	// Follow: history — after the stalled call has returned, the same Client is used once more while the server
+	// stays silent: 1 Reset, 2 Send, 3 Close. That call must be bounded as well.
+	Follow int `json:"follow,omitempty"`
 }
 
 type c17Case struct {
@@ -34,11 +37,12 @@ type c17Case struct {
 }
 
 var (
-	c17TLS   = []string{"none", "starttls", "implicit"}
-	c17Auth  = []string{"none", "PLAIN", "LOGIN", "SCRAM-SHA-256"}
-	c17Entry = []string{"DialWithContext", "DialAndSend", "Send", "Reset", "Send(after idle hour)"}
-	c17Tmo   = 7 * time.Second
-	c17Slack = 1500 * time.Millisecond
+	c17TLS    = []string{"none", "starttls", "implicit"}
+	c17Auth   = []string{"none", "PLAIN", "LOGIN", "SCRAM-SHA-256"}
+	c17Entry  = []string{"DialWithContext", "DialAndSend", "Send", "Reset", "Send(after idle hour)"}
+	c17Follow = []string{"", "Reset", "Send", "Close"}
+	c17Tmo    = 7 * time.Second
+	c17Slack  = 1500 * time.Millisecond
 )
 
 func c17Msgs(cfg c17Cfg) []*mail.Msg {
@@ -171,6 +175,45 @@ func c17Exec(r *vf.Run, cfg c17Cfg, c *vf.Chooser) (keys, whats []string) {
 		r.Outcome("no-stall-reached")
 		return
 	}
+	if cfg.Follow > 0 {
+		nb := len(conn.Blocks)
+		var fStart time.Time
+		var fErr error
+		fpan, fpw, fhung := vf.GuardTimeout(vf.CallTimeout, func() {
+			fStart = time.Now()
+			switch cfg.Follow {
+			case 1:
+				fErr = cl.Reset()
+			case 2:
+				fErr = cl.Send(c17Msgs(cfg)...)
+			case 3:
+				fErr = cl.Close()
+			}
+		})
+		fname := fmt.Sprintf("%s-after-timed-out-%s", c17Follow[cfg.Follow], entry)
+		switch {
+		case fpan:
+			add("panic/"+vf.PanicSite(fpw), fpw)
+			return
+		case fhung:
+			add(fmt.Sprintf("call-never-returns/op=%s", fname),
+				fmt.Sprintf("%s: after %s had timed out (server silent after %s) the next call on the same Client did not return within %v: it waits on something no connection deadline covers (tls=%s auth=%s)", fname, entry, blocks[0].After, vf.CallTimeout, c17TLS[cfg.TLS], c17Auth[cfg.Auth]))
+			return
+		}
+		_ = fErr
+		for _, fb := range conn.Blocks[nb:] {
+			switch {
+			case fb.Deadline.IsZero():
+				add(fmt.Sprintf("unbounded-block/op=%s", fname),
+					fmt.Sprintf("%s: the client %ss on the still silent server with no deadline armed on the connection (tls=%s auth=%s)", fname, fb.Op, c17TLS[cfg.TLS], c17Auth[cfg.Auth]))
+			case fb.Deadline.After(fStart.Add(conn.Skew).Add(c17Tmo + c17Slack)):
+				add(fmt.Sprintf("deadline-too-late/op=%s", fname),
+					fmt.Sprintf("%s: blocked with a deadline %.1fs after the call started; configured timeout is %v", fname, fb.Deadline.Sub(fStart.Add(conn.Skew)).Seconds(), c17Tmo))
+			}
+			break
+		}
+		r.Outcome("follow/" + c17Follow[cfg.Follow] + fmt.Sprintf("/blocks=%d", minInt(1, len(conn.Blocks[nb:]))))
+	}
 	b := blocks[0]
 	after := b.After
 	for i := 0; i < len(after); i++ {
@@ -210,7 +253,7 @@ func init() {
 	vf.Register(&vf.Check{
 		ID: "C17", Title: "every network operation is bounded by the configured timeout",
 		Run: func(r *vf.Run) {
-			r.SetRule("one stall (server silent, connection open) at every command position of the dialogue — greeting, EHLO, STARTTLS, inside the TLS handshake, every AUTH step, NOOP, MAIL, each RCPT, DATA, mid-content (server stops reading), end-of-data, RSET, QUIT — × TLS mode {none, STARTTLS, implicit} × auth {none, PLAIN, LOGIN, SCRAM-SHA-256} × entry point {DialWithContext, DialAndSend, Send, Reset, Send after an idle hour} × caller context with/without own deadline; oracle is logical: when the client blocks on the silent peer a deadline <= call start + timeout + 1.5 s must be armed on the connection; distinct by (configuration, stall position)")
+			r.SetRule("one stall (server silent, connection open) at every command position of the dialogue — greeting, EHLO, STARTTLS, inside the TLS handshake, every AUTH step, NOOP, MAIL, each RCPT, DATA, mid-content (server stops reading), end-of-data, RSET, QUIT — × TLS mode {none, STARTTLS, implicit} × auth {none, PLAIN, LOGIN, SCRAM-SHA-256} × entry point {DialWithContext, DialAndSend, Send, Reset, Send after an idle hour} × caller context with/without own deadline × history {none, then Reset / Send / Close on the same Client while the server stays silent}; oracle is logical: when the client blocks on the silent peer a deadline <= call start + timeout + 1.5 s must be armed on the connection; distinct by (configuration, stall position)")
 			r.Assume("net.Conn deadline semantics as documented (a blocked Read/Write returns at the armed deadline; with none armed it never returns)",
 				"the caller's context is not a bound: the property promises the configured timeout",
 				"idle time is simulated by skewing the connection's clock by one hour")
@@ -225,6 +268,11 @@ func init() {
 							cfgs = append(cfgs, c17Cfg{TLS: tlsm, Auth: a, Entry: e, CtxDL: cd})
 							if (e == 1 || e == 2 || e == 4) && a <= 1 && !cd {
 								cfgs = append(cfgs, c17Cfg{TLS: tlsm, Auth: a, Entry: e, Msgs: 3})
+							}
+							if !cd && (a <= 1 || r.Thorough) {
+								for f := 1; f <= 3; f++ {
+									cfgs = append(cfgs, c17Cfg{TLS: tlsm, Auth: a, Entry: e, Follow: f})
+								}
 							}
 							if tlsm > 0 && e <= 1 && a == 0 {
 								cfgs = append(cfgs, c17Cfg{TLS: tlsm, Auth: a, Entry: e, HS: 1, CtxDL: cd})
